@@ -29,6 +29,10 @@ EXPLANATION = (
   ' (STYLE-complete) wherever the context replaces one of colour / italics / underline unconditionally it replaces all three, so an attribute switched off by a PAC or a first mid-row code does not leak onto later text;'
   ' (FIN-parse) a parsed SMPTE label counts at the rate it was given (`:`), or at the matching drop-frame rate (`;`): see C12;'
   ' (LINT-k) no instance field declared with a numeric type is tested by truthiness (the number 0 would count as `not set`);'
+  ' (LINT-l) no tuple / list / set display of the anchored modules lists the same computed component twice and no dict display repeats a key (a key or fingerprint built that way cannot tell apart what the missing component would have);'
+  ' (STATE-share) no assignment stores a container field of one object (a field the package updates in place) into a field of another object without copying it, so an in-place update of one object never changes another;'
+  " (ITEM-source) an object built once per item of an inner loop is filled only with values that derive from that item or do not vary with the loops, never with a value of the enclosing container standing where the item's own belongs;"
+  ' (NUL-known) no local is dereferenced at a point where a dominating test has established that it is None and nothing has assigned it since (the test and the dereference would contradict each other);'
 )
 RULE_TEXT = "per code class, per control code, per decoder-state call, per style property x caption style"
 UNDECIDED = ["everything the statement says about *what is displayed when*: pop-on flip, roll-up window depth, paint-on accumulation, cursor / backspace arithmetic, "
@@ -378,4 +382,5 @@ def run(ctx):
   from . import c12 as _c12
   _c12.check_parse_rate(ctx)
   common.check_numeric_fields(ctx, [n for n in ctx.ix.modules if n.startswith("ttconv.scc")])
+  common.check_known_none(ctx, [n for n in ctx.ix.modules if n.startswith("ttconv.scc")])
   common.check_history_independence(ctx, [n for n in ctx.ix.modules if n.startswith("ttconv.scc")] + ["ttconv.time_code"])
